@@ -19,6 +19,9 @@ import (
 //	D <dataset>                     impl: D          (the dataset is written into a bolt file)
 //	Q <store> <zitiql hex> <term>   impl: R ok <QueryIds ids> <IterateIds ids> | R err | R panic
 //	F <float64 bits>                impl: F <hex of strconv.FormatFloat(v,'f',-1,64)>   (the model's formatter)
+//	T ...                           impl: T          (the answer of one scan strategy, c01_strategy.go)
+//
+// The S line of a schema variant (c01_variant.go) ends with  H ... (child stores)  and  V <variant name>.
 func init() { commands["c01"] = runC01 }
 
 const c01Base = "root"
@@ -128,7 +131,8 @@ func runC01(o *opts) error {
 	}
 	defer db.Close()
 	ast.EnableQueryDebug.Store(false)
-	r := &c01Runner{db: db, stores: c01BuildStores(c01Base), stats: map[string]int{}}
+	r := &c01Runner{db: db, stats: map[string]int{}}
+	r.useVariant("base")
 	r.cases = newLineWriter(o.out, "cases.txt")
 	r.impl = newLineWriter(o.out, "impl.txt")
 	defer r.cases.close()
@@ -138,8 +142,7 @@ func runC01(o *opts) error {
 		return r.replay(rp)
 	}
 
-	r.cases.line("%s", c01SchemaLine())
-	r.impl.line("S")
+	r.useVariant("base")
 
 	g := &c01Gen{r: newRng(o.seed), stats: r.stats}
 	dotted := o.get("dotted", "1") == "1"
@@ -158,6 +161,9 @@ func runC01(o *opts) error {
 	}
 	r.stats["float-format-lines"] = c01FmtLines(r, g, nfmt)
 
+	// the schema variants (aliased storage, child stores) and every scan strategy, bounded-exhaustive
+	c01VariantSweeps(r, dotted)
+
 	// random datasets x typed random filters
 	ndatasets, perDataset := 150, 20
 	if o.thorough() {
@@ -171,6 +177,10 @@ func runC01(o *opts) error {
 		if k%10 == 0 {
 			maxPeople = 2
 		}
+		// the schema variant of this dataset: where the values are stored, and which child stores exist
+		if variant := []string{"base", "base", "alias", "hier", "hier-alias"}[k%5]; variant != c01Cur.name {
+			r.useVariant(variant)
+		}
 		d := g.dataset(maxPeople)
 		if err := r.loadDataset(d); err != nil {
 			return err
@@ -180,6 +190,9 @@ func runC01(o *opts) error {
 			store := 0
 			if g.r.chance(15) {
 				store = 1
+			}
+			if len(c01Cur.raw) > c01Roots && g.r.chance(60) { // through a child store
+				store = c01Roots + g.r.intn(len(c01Cur.raw)-c01Roots)
 			}
 			depth := g.weighted([]int{25, 30, 25, 15, 5})
 			f := g.filter(store, depth, dotted)
@@ -196,6 +209,8 @@ func runC01(o *opts) error {
 			}
 			r.stats[fmt.Sprintf("nesting:%d", top.depth())]++
 			r.runFilter(store, top)
+			// the same filter through other scan strategies
+			g.randomStrategies(r, store, d, f, 2)
 		}
 	}
 	r.stats["datasets"] = ndatasets
@@ -220,8 +235,13 @@ func (r *c01Runner) replay(path string) error {
 		}
 		switch toks[0] {
 		case "S":
-			r.cases.line("%s", line)
-			r.impl.line("S")
+			variant := "base"
+			if len(toks) > 2 && toks[len(toks)-2] == "V" {
+				variant = toks[len(toks)-1]
+			}
+			r.useVariant(variant)
+		case "T":
+			r.replayStrategy(toks)
 		case "D":
 			d, err := c01ParseDataset(toks[1:])
 			if err != nil {
